@@ -42,10 +42,11 @@ RISKY_FLAGS = [
     'if_string_paren',       # if (s == ') call fake(') call real()
     'nested_contains_last',  # last module procedure has internal procedures and another module follows
     'kw_binding_nocolon',    # first type-bound procedure is 'procedure subroutine_x' (keyword-like name, no '::')
+    'kw_unit_name',          # a module FUNCTION named subroutine_x (keyword of the other unit kind inside the name)
     'call_in_spec_string',   # reserved
 ]
 
-KW_IDENTS = ['recall_me', 'end_it', 'use_it', 'type_z', 'function_y', 'subroutine_x', 'module_p',
+KW_IDENTS = ['recall_me', 'end_it', 'use_it', 'type_z', 'functio_y', 'sub_routine_x', 'module_p',
              'procedure_r', 'interface_q', 'contains_c', 'if_then', 'do_call', 'only_a', 'result_v',
              'endtype_t', 'genericx', 'final_f', 'import_i', 'public_p', 'operator_o']
 
@@ -642,6 +643,9 @@ class HostileGen:
             self.stmt(['i1', ' = ', '1'], b, joinable=True)
             self.stmt(['i2', ' = ', '2'], b, joinable=True)
             self.stmt(['jl', ' = ', '0'], b, joinable=True)
+            if self.on('stop_stmt'):
+                self.feat('stop_stmt')
+                self.stmt([self.K('if'), ' (i1 < 0) ', self.K('stop'), ' 1'], b, joinable=True)
             if self.on('inline_kwargs'):
                 self.feat('inline_kwargs')
                 self.stmt(['i2', ' = ', self.K('size'), '(larr, ', self.K('dim'), '=1)'], b, joinable=True)
@@ -941,7 +945,12 @@ class HostileGen:
         # ---- module procedures
         nplain = rng.randint(1, self.f.get('size', 1))
         plain = [(self.fresh('ms_'), 'subroutine') for _ in range(nplain)]
-        if rng.random() < 0.6:
+        if self.on('kw_unit_name'):
+            self.ncount += 1
+            plain.append((f'subroutine_x{self.ncount}', 'function'))
+            self.feat('kw_unit_name')
+            unit['tags'].add('kw_unit_name')
+        elif rng.random() < 0.6:
             plain.append((self.fresh('mf_'), 'function'))
         self.comment_line()
         self.stmt([self.K('contains')], 0, nocont=True)
